@@ -2,6 +2,7 @@ import RbV.Spec.Occ
 import RbV.Basic.Sorted
 import RbV.Model.ShiftAnd
 import RbV.Model.Horspool
+import RbV.Model.Kmp
 /-!
 # C08 — exact matchers return exactly all occurrences
 
@@ -55,5 +56,20 @@ theorem horspool_exact (p t : List Nat) (hp : 0 < p.length) : Horspool.findAll p
   Horspool.findAll_eq_occurrences p t hp
 
 example : Horspool.findAll [1, 2, 1] [1, 2, 1, 2, 1] = [0, 2] := by decide
+
+/-- **KMP** (mirror model of `kmp.rs`: the `lps` failure-table loop, `delta` with its
+`q == m || (p[q] != a && q > 0)` fall-back loop, and the `1 + i - m` report) yields exactly the oracle's list for
+every non-empty pattern and every text. The proof shows that `lps[i]` is the longest proper border of `p[0..=i]`
+and that the automaton state is always the longest pattern prefix that is a suffix of the text read so far. -/
+theorem kmp_exact (p t : List Nat) (hp : 0 < p.length) : Kmp.findAll p t = occurrences p t :=
+  Kmp.findAll_eq_occurrences p t hp
+
+/-- the failure table computed by the model is the table of longest proper borders -/
+theorem kmp_lps_is_border_table (p : List Nat) (hp : 0 < p.length) :
+    (Kmp.lps p).length = p.length ∧ Kmp.LpsSpec p (Kmp.lps p) :=
+  ⟨(Kmp.lps_spec p hp).2, (Kmp.lps_spec p hp).1⟩
+
+example : Kmp.findAll [1, 2, 1] [1, 2, 1, 2, 1] = [0, 2] := by decide
+example : Kmp.lps [1, 2, 1, 2, 3] = [0, 0, 1, 2, 0] := by decide
 
 end RbV.Thm.C08
